@@ -24,7 +24,7 @@ MNext ==
        \/ w = 21 /\ reg[a] # {} /\ RegisterEff(a, reg[a], 3 - ver[a]) /\ last' = [act |-> "Register", res |-> "ok", r |-> a, chains |-> SetToSeq(reg[a]), v |-> 3 - ver[a]]
        \/ w \in {5, 6, 7} /\ UpdateEff(a, c) /\ last' = [act |-> "Update", res |-> Res(UpdateOK(a, c)), signer |-> a, chain |-> c]
        \/ w \in {8, 9, 10} /\ \E aa \in {IF Pick(1..2) = 1 THEN TssAcct ELSE a}, cc \in {IF Pick(1..3) > 1 THEN TssChain ELSE c},
-                                 m \in {IF Pick(1..2) = 1 THEN "none" ELSE Pick(Methods)} :
+                                 m \in {IF Pick(1..2) = 1 THEN "none" ELSE IF Pick(1..4) = 1 THEN "malformed" ELSE Pick(Methods)} :
               \E s \in {IF Pick(1..4) = 1 THEN Pick(1..MaxSeq) ELSE 1 + Cardinality({x \in rcpt : x[1] = cc})} :
               s <= MaxSeq /\ RecvEff(aa, cc, s) /\ last' = [act |-> "Recv", res |-> Res(RecvOK(aa, cc, s)), signer |-> aa, chain |-> cc, seq |-> s, call |-> m, proof |-> pf]
        \/ w \in {11, 12} /\ Send
